@@ -32,6 +32,8 @@ type Params struct {
 	ManualGC bool
 	// NoData > 0: the history messages k with k % NoData == 1 have no data field (an ID and a comment only)
 	NoData int
+	// EmptyID > 0 (manual IDs): history message EmptyID-1 carries the set-but-empty ID ""
+	EmptyID int
 }
 
 func (p Params) Name() string {
@@ -48,6 +50,9 @@ func (p Params) Name() string {
 	}
 	if p.NoData > 0 {
 		ck += fmt.Sprintf("-nodata%d", p.NoData)
+	}
+	if p.EmptyID > 0 {
+		ck += fmt.Sprintf("-emptyid%d", p.EmptyID)
 	}
 	return fmt.Sprintf("%s-auto%v-h%d-present%d-two%v-slow%v%s", kind, p.Auto, p.H, p.Present, p.TwoSubs, p.Slow, ck)
 }
@@ -79,6 +84,9 @@ func topicsOf(k int) []string {
 func idOf(p Params, k int) string {
 	if p.Auto {
 		return fmt.Sprint(k)
+	}
+	if p.EmptyID > 0 && k == p.EmptyID-1 {
+		return ""
 	}
 	return fmt.Sprintf("e%d", k)
 }
@@ -122,7 +130,12 @@ func body(p Params) func() {
 			if p.Auto {
 				return build(tag, "")
 			}
-			return build(tag, idOf(p, k))
+			if id := idOf(p, k); id != "" {
+				return build(tag, id)
+			}
+			m := build(tag, "x")
+			m.ID = sse.ID("") // set, but empty
+			return m
 		}
 		// history, sequentially
 		for k := 0; k < p.H; k++ {
@@ -360,6 +373,19 @@ func Scenarios(tier string) []run.Scenario {
 						add(Params{Valid: c.valid, Auto: auto, N: c.n, H: h, Present: present, TwoSubs: true})
 						add(Params{Valid: c.valid, Auto: auto, N: c.n, H: h, Present: present, Slow: true})
 					}
+				}
+			}
+		}
+	}
+	// a history event whose ID is the empty (but set) string; subscribers without a Last-Event-ID must get nothing replayed
+	for _, c := range []cfg{{false, 3}, {true, 0}} {
+		for h := 2; h <= 3; h++ {
+			for e := 1; e <= h; e++ {
+				for present := -1; present < h; present++ {
+					if present == e-1 {
+						continue // presenting the empty ID itself: "" set vs unset is what is being told apart
+					}
+					add(Params{Valid: c.valid, N: c.n, H: h, Present: present, EmptyID: e, AllA: true})
 				}
 			}
 		}
